@@ -902,7 +902,8 @@ def rule_consts(ctx, R):
         rets = sorted({r.of_origin(r.org.of_place({"l": 0, "proj": []}, x, "t")) for x in cfg.returns})
         ok = (rets_w is None or rets == rets_w) and (lits is None or _array_literals(b) == lits)
         if n.endswith("is_zero"):
-            ok = ok and len(rets) == 1 and rets[0].startswith("PartialEq::eq(P1.val,")
+            # vec![0] (an array literal boxed into a vector) or the slice constant [0]
+            ok = len(rets) == 1 and ((ok and rets[0].startswith("PartialEq::eq(P1.val,")) or rets[0] in ("PartialEq::eq(P1.val,array{K0})", "PartialEq::eq(array{K0},P1.val)"))
         R.check(ok, "consts:%s" % n.rsplit("::", 1)[-1], "%s: %s" % (desc, rets), b.span)
 
 
